@@ -195,6 +195,17 @@ fn wrappers(ctx: &mut Ctx) {
     match catch(|| nested::internal_edge_sorted(d, 7, dd)) { Ok(_) => {}, Err(p) => ctx.violation("free-fn-internal_edge_sorted-rejects-valid-depth+delta", c.clone(), p) }
     ctx.hard("wrapper", &[d as u64, dd as u64]);
   }
+  // delta_depth = 0 is outside the statement (its count 4.2^delta - 4 is 0 there, and the code shifts a mask by 64 bits): observed
+  // for information only (what a caller gets), never counted as a violation
+  for &h in [0u64, 5, 11].iter() {
+    let layer = nested::get_or_create(0);
+    let ngb: std::collections::BTreeSet<u64> = layer.neighbours(h, false).values_vec().into_iter().collect();
+    match catch(|| layer.external_edge(h, 0)) {
+      Err(_) => ctx.info("delta_depth=0:external_edge-panics(not-claimed)"),
+      Ok(v) => { let got: std::collections::BTreeSet<u64> = v.iter().cloned().collect(); ctx.info(if got == ngb && v.len() == ngb.len() { "delta_depth=0:external_edge-is-the-neighbour-set(not-claimed)" } else { "delta_depth=0:external_edge-is-not-the-neighbour-set(not-claimed)" }); }
+    }
+    match catch(|| Layer::internal_edge(h, 0)) { Err(_) => ctx.info("delta_depth=0:internal_edge-panics(not-claimed)"), Ok(v) => ctx.info(&format!("delta_depth=0:internal_edge-returns-{}-entries(not-claimed)", v.len())) }
+  }
 }
 
 fn replay(ctx: &mut Ctx, c: &Case) {
